@@ -275,7 +275,8 @@ func genStreamBatchCase(t *rapid.T) Case {
 }
 
 func TestStreamBatchRandom(t *testing.T) {
-	pbt.Check(t, 3000, 120000, func(rt *rapid.T) {
+	pbt.ClearCurrent() // the cases of this entry point do not record themselves
+	pbt.Check(t, 6000, 120000, func(rt *rapid.T) {
 		c := genStreamBatchCase(rt)
 		if pbt.WantSample(rt) {
 			pbt.Sample(rt, c)
